@@ -43,8 +43,15 @@ def _new_index():
         return dict()
 
 
+import numpy as _np
+
+
+def _is_number(v):
+    return isinstance(v, (int, float, _np.number))  # np.int64 is not an int, but equals one as a dict key
+
+
 def _numberish(v):
-    return isinstance(v, (int, float)) or (isinstance(v, tuple) and any(_numberish(x) for x in v))
+    return _is_number(v) or (isinstance(v, tuple) and any(_numberish(x) for x in v))
 
 
 class SymDict:
@@ -121,7 +128,7 @@ class SymDict:
             return False, -1
         if pos >= 0:
             return True, pos
-        if self._symk and isinstance(key, (int, float)):
+        if self._symk and _is_number(key):
             return False, -1  # may equal a symbolic key: slow path
         return True, -1
 
